@@ -103,7 +103,94 @@ def worker_shape(fn):
         else:
             out.append(norm(st, roles))
     ctx_items = [norm(it.context_expr, roles) for it in withs[0].items]
-    return norm(open_expr, roles), out, ctx_items
+    return norm(open_expr, roles), out, ctx_items, xprog(body, roles)
+
+
+def _role_call(node, method):
+    """`await <Name>.<method>(args)` as an expression statement -> (role name, args) or None"""
+    if not (isinstance(node, ast.Expr) and isinstance(node.value, ast.Await)):
+        return None
+    c = node.value.value
+    if not (isinstance(c, ast.Call) and isinstance(c.func, ast.Attribute) and c.func.attr == method
+            and isinstance(c.func.value, ast.Name) and not c.keywords):
+        return None
+    return c.func.value.id, c.args
+
+
+def xsimple(st, roles, item):
+    """one simple statement -> Coq term of type xsimple"""
+    r = _role_call(st, "seek")
+    if r and r[0] in roles and len(r[1]) == 1 and norm(r[1][0], roles) == "conn.restart_offset":
+        return f"XSeek {S(roles[r[0]])}"
+    r = _role_call(st, "write")
+    if r and r[0] in roles and item is not None and len(r[1]) == 1 and isinstance(r[1][0], ast.Name) and r[1][0].id == item:
+        return f"XWrite {S(roles[r[0]])}"
+    rr = dict(roles)
+    if item is not None:
+        rr[item] = "ITEM"
+    return f"XSOther {S(norm(st, rr))}"
+
+
+def xprog(body, roles):
+    """statement list -> Coq term of type list xstmt (fail closed: XOther carries the text)"""
+    out = []
+    for st in body:
+        if isinstance(st, ast.If) and not st.orelse and norm(st.test, roles) == "conn.restart_offset":
+            out.append("XIfOffset [" + "; ".join(xsimple(x, roles, None) for x in st.body) + "]")
+        elif (
+            isinstance(st, ast.AsyncFor)
+            and not st.orelse
+            and isinstance(st.target, ast.Name)
+            and isinstance(st.iter, ast.Call)
+            and isinstance(st.iter.func, ast.Attribute)
+            and st.iter.func.attr == "iter_by_block"
+            and isinstance(st.iter.func.value, ast.Name)
+            and st.iter.func.value.id in roles
+            and len(st.iter.args) == 1
+            and not st.iter.keywords
+        ):
+            src = roles[st.iter.func.value.id]
+            out.append(
+                f"XForBlocks {S(src)} {S(norm(st.iter.args[0], roles))} ["
+                + "; ".join(xsimple(x, roles, st.target.id) for x in st.body)
+                + "]"
+            )
+        elif isinstance(st, ast.Expr) and isinstance(st.value, ast.Await):
+            out.append("XDo (" + xsimple(st, roles, None) + ")")
+        else:
+            out.append(f"XOther {S(norm(st, roles))}")
+    return "[" + "; ".join(out) + "]"
+
+
+def client_prog(fn, what, stream_method):
+    """upload()/download() file branch: `async with self.path_io.open(P, mode=M) as F, self.<stream_method>(Q) as S: <body>`
+    -> (M, program of <body>)"""
+    for st in strip_doc(fn.body):
+        if isinstance(st, ast.If):
+            inner = [x for x in st.body if isinstance(x, ast.AsyncWith)]
+            if len(inner) != 1:
+                continue
+            w = inner[0]
+            roles, mode = {}, None
+            for it in w.items:
+                c = it.context_expr
+                if not (isinstance(it.optional_vars, ast.Name) and isinstance(c, ast.Call) and isinstance(c.func, ast.Attribute)):
+                    raise Unclassified(f"{what}: context item {norm(it.context_expr)}")
+                if c.func.attr == "open" and norm(c.func.value) == "self.path_io":
+                    roles[it.optional_vars.id] = "FILE"
+                    for k in c.keywords:
+                        if k.arg == "mode" and isinstance(k.value, ast.Constant):
+                            mode = k.value.value
+                    if len(c.args) == 2 and isinstance(c.args[1], ast.Constant):
+                        mode = c.args[1].value
+                elif c.func.attr == stream_method and norm(c.func.value) == "self":
+                    roles[it.optional_vars.id] = "STREAM"
+                else:
+                    raise Unclassified(f"{what}: context item {norm(it.context_expr)}")
+            if sorted(roles.values()) != ["FILE", "STREAM"] or not isinstance(mode, str):
+                raise Unclassified(f"{what}: roles {roles} mode {mode}")
+            return f"({S(mode)}, {xprog(w.body, roles)})"
+    raise Unclassified(f"{what}: file branch with an async with not found")
 
 
 def dispatcher_reset(fn):
@@ -208,8 +295,8 @@ def generate(src_dir):
         raise Unclassified("appe: mode argument is not a string literal")
     appe_mode = mode_arg.value
 
-    stor_open, stor_body, stor_ctx = worker_shape(nested_fn(stor, "stor_worker"))
-    retr_open, retr_body, retr_ctx = worker_shape(nested_fn(retr, "retr_worker"))
+    stor_open, stor_body, stor_ctx, stor_prog = worker_shape(nested_fn(stor, "stor_worker"))
+    retr_open, retr_body, retr_ctx, retr_prog = worker_shape(nested_fn(retr, "retr_worker"))
     rest_body = offset_assignments(rest)
     reset = dispatcher_reset(disp)
 
@@ -283,9 +370,13 @@ def generate(src_dir):
         raise Unclassified(f"{what}: file branch with an async with not found")
 
     out = [emit.HEADER.format(src=str(src_dir))]
-    out.append("From Coq Require Import String.\nFrom Verif Require Import Lib.XferFacts.\nOpen Scope string_scope.\n")
+    out.append("From Coq Require Import String List.\nImport ListNotations.\nFrom Verif Require Import Lib.XferFacts.\nOpen Scope string_scope.\n")
     out.append("Definition translator_ok : bool := true.\n")
     fields = [
+        ("xf_stor_prog", stor_prog),
+        ("xf_retr_prog", retr_prog),
+        ("xf_upload_prog", client_prog(find_method(cl, "upload"), "upload", "upload_stream")),
+        ("xf_download_prog", client_prog(find_method(cl, "download"), "download", "download_stream")),
         ("xf_stor_default_mode", S(stor_default)),
         ("xf_appe_mode", S(appe_mode)),
         ("xf_stor_body", slist(stor_body)),
